@@ -35,6 +35,12 @@ fn MakeBox() -> Box { return { .Fld = 1, .fld = 2 } as Box; }
 fn MakeOuter() -> Outer { return { .In = { .Fld = 1, .fld = 2 } as Box } as Outer; }
 fn take(n: i32) -> i32 { return n; }
 fn takeRef(r: &'i32) { r = 5; }
+type Vault struct { .Fld: i32, .fld: i32 };
+type OuterV struct { .In: Vault };
+fn (v: &Vault) Fld() -> i32 { return 70; }
+fn (v: &Vault) fld() -> i32 { return 71; }
+fn MakeVault() -> Vault { return { .Fld = 1, .fld = 2 } as Vault; }
+fn MakeOuterV() -> OuterV { return { .In = { .Fld = 1, .fld = 2 } as Vault } as OuterV; }
 type Hue enum { Red, Green };
 type hue enum { Dark, Light };
 fn RankHue(h: Hue) -> i32 { return 1; }
@@ -241,8 +247,17 @@ def render(c):
                 main_top = ["fn ltake(n: i32) -> i32 { return n; }"]
                 main_body = ["    let o := %s::%s();" % (alias, mk)] + \
                     ["    " + x.replace("LTAKE", "ltake") for x in stmts]
+    main_text = "\n".join([imp_line] + main_top + ["fn main() {"] + main_body + ["}"]) + "\n"
+    if a["fam"] == "field" and a.get("twin"):
+        # the same case on the struct type that also has methods named like its fields
+        def tw(t):
+            for x, y in (("MakeOuter", "MakeOuterV"), ("MakeBox", "MakeVault"), ("Outer", "OuterV"), ("Box", "Vault")):
+                t = re.sub(r"\b%s\b" % x, y, t)
+            return t
+        lib = LIB_TMPL + tw(lib[len(LIB_TMPL):])
+        main_text = tw(main_text)
     files[lib_path] = lib
-    files["main.fer"] = "\n".join([imp_line] + main_top + ["fn main() {"] + main_body + ["}"]) + "\n"
+    files["main.fer"] = main_text
     return files
 
 
@@ -270,6 +285,7 @@ def run(tier, seed, replay=None):
     obs = pool.compile_many(jobs)
     n_void = n_ok_rej = n_ok_acc = n_crash = 0
     voids = []
+    void_reasons = {}
     susp = []
     for c, o in zip(cases, obs):
         if not c["allowed"]:
@@ -287,6 +303,8 @@ def run(tier, seed, replay=None):
                          % o["errors"][0]["msg"][:100], {"case": c["c"], "files": render(c)})
             else:
                 n_void += 1
+                rk = re.sub(r"'[^']*'|\d+", "#", (o["errors"][0]["msg"] if o["errors"] else o["cls"]))[:60]
+                void_reasons[rk] = void_reasons.get(rk, 0) + 1
                 if len(voids) < 10:
                     voids.append({"key": c["key"], "cls": o["cls"], "msg": [e["msg"][:70] for e in o["errors"]][:2]})
     for c, o2 in zip(susp, core.pmap(lambda c: env.compile(c["_p"], typecheck_only=True), susp, workers=8)):
@@ -300,7 +318,7 @@ def run(tier, seed, replay=None):
     chk.cov.update({
         "states": res["distinct"], "transitions": res["states"], "traces_validated_against_impl": len(cases) - n_void,
         "cases": len(cases), "forbidden_rejected": n_ok_rej, "allowed_accepted": n_ok_acc, "void": n_void,
-        "void_examples": voids, "forbidden_not_compiled_because_of_crash": n_crash,
+        "void_examples": voids, "void_reasons": void_reasons, "forbidden_not_compiled_because_of_crash": n_crash,
         "evaluations": len(cases), "distinct_nontrivial": len(cases) - n_void, "exhaustive": True,
         "rule": "4 symbol kinds x {upper, lower} x {own, other module} x 12 value / 6 type contexts x 3 import shapes, "
                 "and field accesses {upper, lower} x 4 sites x 5 operations x 6 contexts x 3 import shapes (544 "
